@@ -431,7 +431,7 @@ func (rt *runtime) convertCallParameter(v Value, t reflect.Type) (reflect.Value,
 	case reflect.String:
 		switch v.kind {
 		case valueString:
-			return reflect.ValueOf(v.value).Convert(t), nil
+			return reflect.ValueOf(v.string()).Convert(t), nil
 		case valueNumber:
 			return reflect.ValueOf(fmt.Sprintf("%v", v.value)).Convert(t), nil
 		}
